@@ -22,7 +22,7 @@ from pathlib import Path
 import numpy as np
 
 ROOT = Path(__file__).resolve().parent.parent
-LEAN = ROOT / "lean"
+LEAN = Path(os.environ.get("VERIF_LEAN_DIR") or ROOT / "lean")  # evaluation tools point parallel runs at private copies
 WORK = ROOT / ".work"
 REPLAYS = ROOT / "replays"
 # VERIF_EVIDENCE_DIR: used only by tools/eval_seeded.py so that runs against a deliberately broken tree do not
@@ -89,7 +89,7 @@ def lean_build(prop=None, timeout=3000):
     """Tie B: regenerate lean/Tdgl/Generated/*.lean from /repo's current source, then `lake build` the whole
     project (no-op when warm).  If the whole build fails, the modules this property needs are built on their own,
     so that a broken bridge of one property does not take the other checks down.  Returns (ok, log, seconds)."""
-    with _lock("lake"):
+    with _lock("lake" if LEAN == ROOT / "lean" else "lake_" + re.sub(r"\W", "_", str(LEAN))):
         t0 = time.time()
         tr = subprocess.run([sys.executable, str(ROOT / "tools" / "pyexpr2lean.py")], stdout=subprocess.PIPE, stderr=subprocess.STDOUT, text=True,
                             env=dict(os.environ, VERIF_REPO=str(REPO)))
